@@ -572,6 +572,11 @@ fn lang_candidate(rng: &mut Rng, a: &ArgSpec) -> B {
                 _ => B::s(&base),
             }
         }
+        ValParser::Os | ValParser::Path => match rng.below(4) {
+            0 => B(vec![b'c', b'a', b'f', 0xe9]),
+            1 => B(vec![0xff]),
+            _ => B::s(*rng.pick(&["v", "", "-x", "a b"])),
+        },
         _ => B::s(*rng.pick(&["v", "", "-x", "a b"])),
     }
 }
@@ -620,6 +625,35 @@ fn lang_probe(a: &ArgSpec, cand: &B, via: u8) -> Option<String> {
     }
     if !a.action.takes_values() {
         return None;
+    }
+    if matches!(a.parser, ValParser::Os | ValParser::Path) && via == 1 {
+        // the OS-string parser behind a `try_map` adapter whose function rejects what is not UTF-8: accepted
+        // values come back mapped, rejected ones as a value error naming the argument (never a panic)
+        use clap::builder::TypedValueParser;
+        let vp = clap::builder::OsStringValueParser::new().try_map(|s: OsString| s.into_string().map_err(|_| "not valid UTF-8"));
+        let mut cmd = clap::Command::new("prog").arg(clap::Arg::new("probe").long("probe").action(clap::ArgAction::Set).value_parser(vp));
+        let mut tok = b"--probe=".to_vec();
+        tok.extend_from_slice(&cand.0);
+        let r = match catch(|| cmd.try_get_matches_from_mut(vec![OsString::from("prog"), B(tok).os()])) {
+            Ok(r) => r,
+            Err(p) => return Some(format!("parsing candidate {} through a try_map adapter panicked: {} at {}", cand.esc(), p.msg, p.loc)),
+        };
+        return match (r, std::str::from_utf8(&cand.0)) {
+            (Ok(m), Ok(t)) => match m.try_get_one::<String>("probe") {
+                Ok(Some(v)) if v == t => None,
+                other => Some(format!("candidate {} through a try_map adapter: typed value {:?}", cand.esc(), other.map_err(|e| err_kind(&e)))),
+            },
+            (Ok(_), Err(_)) => Some(format!("candidate {} is accepted although the adapter's function rejects it", cand.esc())),
+            (Err(e), Ok(_)) => Some(format!("candidate {} is rejected ({:?}) although the adapter's function accepts it", cand.esc(), e.kind())),
+            (Err(e), Err(_)) => {
+                let text = e.to_string();
+                if e.kind() == clap::error::ErrorKind::ValueValidation && text.contains("for '--probe") {
+                    None
+                } else {
+                    Some(format!("candidate {} rejected by the adapter's function: kind {:?}, text {text:?} (a value error naming the argument is required)", cand.esc(), e.kind()))
+                }
+            }
+        };
     }
     let mut iso = ArgSpec::new("probe", Action::Set);
     iso.long = Some("probe".into());
